@@ -12,7 +12,8 @@ def palette : Array String := #[
   "", "a", "ab", "äöü", "x\ny", "\n", "p\r\nq", "a longer rendering", "日本", "a\n\nb", "tail\n", "\r",
   "7", "-12", "3.25", "wide\nw\nlonger line", " ", "\n\n", "é", "tab\there",
   "wwwwwwwwwwwwwwwwwwwwwwwwwwwwwwwwwwwwwwwwwwwwwwwwwwwwwwwwwwwwwwwwwwwwww",
-  "ééééééééééééééééééééééééééééééééééééééééééééééééééééééééééééééééé"]
+  "ééééééééééééééééééééééééééééééééééééééééééééééééééééééééééééééééé",
+  "é\r\nü\r\n日本", "日\r\n\r\n本x"]
 
 def escapeOut (s : String) : String :=
   String.join (s.toList.map fun c =>
